@@ -12,9 +12,6 @@ theorem run_append (a b : Str) : ∀ σ, run σ (a ++ b) = (run σ a).bind (fun 
     | none => simp
     | some σ' => simp [ih]
 
-/-- no U+0000 and no U+000D -/
-def clean (s : Str) : Bool := s.all (fun c => c != cNul && c != cCr)
-
 theorem clean_cons {c : Char} {s : Str} (h : clean (c :: s) = true) :
     c ≠ cNul ∧ c ≠ cCr ∧ clean s = true := by
   simp [clean] at h
